@@ -1,4 +1,5 @@
 import PsV.Proofs.Monotone
+import PsV.Props.C11
 /-!
 # C10 — the monotonic fit's back-transform yields a surface that is non-decreasing along the
 monotonic dimension on the fully supported region
@@ -15,6 +16,13 @@ Property theorems only (helpers in `PsV.Proofs.Monotone`).
 * `deriv_formula`, `monotone_coeffs_nonneg_deriv` : 1-D core (summation by parts).
 * `selInd_ok`               : the order-0 indicator of the spec brackets `x` inside the supported region.
 * `C10_monotone`            : n-D statement about `specEval` with `.deriv1` in the monotonic dimension.
+* `tcoords_normal_eq`, `inactive_constraint` : the normal equations in T-spline coordinates are the change of basis
+                              of the B-spline ones; if their unconstrained solution is non-negative it is the
+                              KKT point, i.e. the unique solution of the non-negative problem (with C11).
+* `penalty_factor_differs`  : witness that the penalty the unrepaired code builds for a *non*-monotonic dimension of a
+                              ≥ 2-d monotonic fit (`… ⊗ I ⊗ …` in the monotonic slot) is not the change of basis
+                              (`… ⊗ LᵀL ⊗ …`) — `fixes/C10-1.diff`.
+The non-negativity of the T-coefficients on *every* exit of the solver is `block3_nonneg_invariant` (Props/C11).
 -/
 namespace PsV
 open Finset
@@ -338,6 +346,54 @@ example : 0 ≤ specEval
     rw [idx3_succ]
     exact_mod_cast Nat.le_add_right _ _
 
--- inactive_constraint: added by the integrator (needs PsV.Props.C11.kkt_unique_min)
+/-! ## 7. the inactive constraint -/
+
+open Matrix
+
+section Inactive
+variable {n : ℕ} {α : Type} [Field α] [LinearOrder α] [IsStrictOrderedRing α]
+
+omit [LinearOrder α] [IsStrictOrderedRing α] in
+/-- The normal equations of the T-spline problem are the change of basis `c = L t` of the B-spline ones:
+with `A_T = Lᵀ A L`, `b_T = Lᵀ b`, any solution `c = L t` of `A c = b` gives a solution `t` of `A_T t = b_T`
+(`L` need not even be the ones matrix here). -/
+theorem tcoords_normal_eq (A L : Matrix (Fin n) (Fin n) α) (b t : Fin n → α)
+    (h : A *ᵥ (L *ᵥ t) = b) : (Lᵀ * A * L) *ᵥ t = Lᵀ *ᵥ b := by
+  rw [← h, Matrix.mulVec_mulVec, Matrix.mulVec_mulVec, Matrix.mul_assoc]
+
+/-- **Inactive constraint.**  If the unconstrained minimiser of the (T-coordinate) quadratic — the solution `t` of
+`A t = b` with `A` symmetric positive definite — is component-wise non-negative, then it satisfies the KKT conditions
+of the non-negative problem and is therefore (by `kkt_unique_min`) its unique solution: the monotonic fit returns the
+unconstrained fit. -/
+theorem inactive_constraint (A : Matrix (Fin n) (Fin n) α) (b t : Fin n → α) (hA : SPD A)
+    (hsol : A *ᵥ t = b) (ht : ∀ i, 0 ≤ t i) :
+    KKT A b t ∧ ∀ z : Fin n → α, (∀ i, 0 ≤ z i) → qf A b t ≤ qf A b z ∧ (qf A b z = qf A b t → z = t) := by
+  have hk : KKT A b t := by
+    refine ⟨ht, fun i => ?_, fun i _ => ?_⟩ <;> simp [gradM, hsol]
+  exact ⟨hk, kkt_unique_min A b t hA hk⟩
+
+end Inactive
+
+/-- non-vacuity of `inactive_constraint`: the 2 × 2 example of C11 with `b = A (1, 2)` -/
+example : SPD (Nnls.toMat 2 exA) ∧
+    (Nnls.toMat 2 exA) *ᵥ (fun i : Fin 2 => if i = 0 then (1:ℚ) else 2) = (fun i : Fin 2 => if i = 0 then (4:ℚ) else 5) ∧
+    ∀ i : Fin 2, (0:ℚ) ≤ (fun i : Fin 2 => if i = 0 then (1:ℚ) else 2) i := by
+  refine ⟨exA_spd, ?_, fun i => by fin_cases i <;> simp⟩
+  ext i; fin_cases i <;> simp [Matrix.mulVec, dotProduct, Fin.sum_univ_two, Nnls.toMat, exA] <;> norm_num
+
+/-- **Witness for the penalty defect** (2 coefficients in the monotonic dimension): the Kronecker factor that the
+unrepaired `calc_penalty` puts in the monotonic slot when it penalises *another* dimension is the identity, whereas the
+change of basis `c = L t` requires `LᵀL = [[2,1],[1,1]]`.  So for ≥ 2 dimensions the unrepaired monotonic fit minimises a
+different objective and `inactive_constraint` does not apply to it. -/
+theorem penalty_factor_differs :
+    let L : Matrix (Fin 2) (Fin 2) ℚ := fun i j => if j ≤ i then 1 else 0
+    Lᵀ * L ≠ (1 : Matrix (Fin 2) (Fin 2) ℚ) := by
+  intro L h
+  have h00 : (Lᵀ * L) 0 0 = (1 : Matrix (Fin 2) (Fin 2) ℚ) 0 0 := by rw [h]
+  have e : (Lᵀ * L) 0 0 = L 0 0 * L 0 0 + L 1 0 * L 1 0 := by
+    rw [Matrix.mul_apply, Fin.sum_univ_two]; rfl
+  rw [e] at h00
+  norm_num [L] at h00
+
 
 end PsV
